@@ -209,7 +209,7 @@ def _gen_conn(rng, kind, r, c, obj=False):
     return g if obj else g.connection_list
 
 
-FORCED = [(15, 15), (15, 1), (1, 15), (15, 2), (2, 15), (14, 15), (15, 14), (15, 15), (1, 1), (10, 12), (12, 10), (13, 13)]
+FORCED = [(15, 15), (15, 1), (1, 15), (15, 2), (2, 15), (14, 15), (15, 14), (15, 15), (1, 1), (10, 12), (12, 10), (13, 13), (2, 5), (5, 2), (3, 7), (7, 3), (2, 4), (4, 2), (5, 2), (2, 5), (7, 3), (3, 7), (4, 2), (2, 4)]
 KINDS = ["perc", "dfs", "dfs_perc", "perc", "dfs_partial", "perc", "full", "perc", "dfs", "empty", "dfs_perc"]
 
 
@@ -362,7 +362,11 @@ PROVENANCE = ["ctor", "fortran", "ctor", "strided", "loaded", "ctor", "solved", 
 def _build(conn, prov):
     L, S, T = mz.LatticeMaze, mz.SolvedMaze, mz.TargetedLatticeMaze
     r, c = (int(v) for v in conn.shape[1:])
-    meta = dict(func_name="hand_made", grid_shape=np.array([r, c]), fully_connected=False, visited_cells={(0, 0)})
+    # hand-written generation metadata that is TRUE of this maze (visited = the component of the start cell), so that code
+    # which trusts the metadata is not blamed; metadata that legitimately disagrees with the graph comes from the generator's
+    # own objects (gen_dfs_percolation: visited cells of the DFS phase, edges added afterwards)
+    comp0 = set(mz.bfs(conn, (0, 0)))
+    meta = dict(func_name="hand_made", grid_shape=np.array([r, c]), start_coord=np.array([0, 0]), n_accessible_cells=len(comp0), max_tree_depth=2 * r * c, fully_connected=len(comp0) == r * c, visited_cells=comp0)
     if prov == "fortran":
         return L(connection_list=np.asfortranarray(conn))
     if prov == "strided":  # a view into a larger array whose other entries are all True
